@@ -119,7 +119,7 @@ IMETA = [{}, {}, {}, {'ifdef': 'FLEXIBLE'}, {'ifndef': 'FLEXIBLE'}, {'comment': 
 MOLMETA = [{}, {}, {'define': {'POSRES_FC': 1000}}, {'post_section_lines': {'atoms': ['; end of atoms']}},
            {'some_flag': True, 'define': {'K_B': '1250'}}]
 HEADERS = ['generated by the C03 check', 'second line', 'a ; b', '', 'martinize2 -f in.pdb -o topol.top']
-VARIANT_KINDS = ['param', 'param', 'atype', 'atype', 'atomname', 'atomname', 'resname', 'resid', 'resid', 'charge', 'mass',
+VARIANT_KINDS = ['key-swap', 'key-swap', 'param', 'param', 'atype', 'atype', 'atomname', 'atomname', 'resname', 'resid', 'resid', 'charge', 'mass',
                  'charge_group', 'edge', 'node-order', 'node-order', 'atomid', 'atomid', 'inter-drop', 'inter-add', 'inter-swap',
                  'inter-meta', 'nrexcl', 'key']
 
@@ -130,7 +130,7 @@ VARIANT_KINDS = ['param', 'param', 'atype', 'atype', 'atomname', 'atomname', 're
 @st.composite
 def _template(draw):
     residues = draw(st.lists(st.tuples(st.integers(0, len(RES_KINDS) - 1), st.integers(1, 3)), min_size=1, max_size=4))
-    resid0 = draw(st.sampled_from([1, 1, 1, 2, 17, 998, 9997]))
+    resid0 = draw(st.sampled_from([1, 1, 1, 2, 17, 998, 9997, 0, 0, -2]))
     resid_step = draw(st.sampled_from([1, 1, 1, 2]))
     atoms = []
     for r, (kind, size) in enumerate(residues):
@@ -265,7 +265,7 @@ def _apply_variant(inst, variant):
 
     if kind == 'atomid' and (inst['atomid'] is None or n < 2):
         kind = 'node-order'
-    if kind in ('node-order', 'edge') and n < 2:
+    if kind in ('node-order', 'edge', 'key-swap') and n < 2:
         kind = 'atype'
     if kind == 'param' and not any(inter['params'] for inter in inters):
         kind = 'atype'
@@ -337,6 +337,15 @@ def _apply_variant(inst, variant):
             meta['ifdef'] = 'FLEXIBLE'
     elif kind == 'nrexcl':
         inst['nrexcl'] += 1
+    elif kind == 'key-swap':
+        # two atoms exchange their node keys, and every interaction / edge keeps its *keys*: key set, attributes by position and
+        # interactions by key are the same as in the template, yet the interactions sit on other atoms
+        keys = inst['keys']
+        keys[a], keys[b] = keys[b], keys[a]
+        swap = {a: b, b: a}
+        for inter in inters:
+            inter['atoms'] = [swap.get(x, x) for x in inter['atoms']]
+        inst['edges'] = sorted(sorted([swap.get(x, x), swap.get(y, y)]) for x, y in inst['edges'])
     elif kind == 'key':
         inst['keys'][a] = max(inst['keys']) + 1 + v % 5
     else:
